@@ -371,6 +371,7 @@ func C20(c *runner.Cfg) *report.Result {
 			case !l.registered && n > 0:
 				res.Violate("c20:listener-called-although-registration-failed", fmt.Sprintf("%s: registration reported that the connection was already closed, yet the listener was invoked", l.kind), w)
 			case l.registered && l.unsubState.Load() == 0 && n == 0:
+				c.Abort.Store(true)
 				res.Violate("c20:listener-never-called", fmt.Sprintf("%s: registration succeeded but the listener was not invoked after the close", l.kind), w)
 			case l.registered && l.unsubState.Load() == 1 && n > 0:
 				res.Violate("c20:listener-called-after-unsubscribe", fmt.Sprintf("%s: unsubscribed before the close was initiated, yet invoked", l.kind), w)
@@ -388,6 +389,7 @@ func C20(c *runner.Cfg) *report.Result {
 				res.Violate("c20:handler-invoked-twice", fmt.Sprintf("channel opened once, handler invoked %d times", inv), w)
 			case inv == 0 && initiator != 3 && initiator != 2:
 				// a proxy cut or a server-side close may race with the opening frames themselves
+				c.Abort.Store(true)
 				res.Violate("c20:handler-not-invoked", "a channel was opened (its opening Send returned OK and the connection was closed only afterwards by the client) but the handler never ran", w)
 			}
 			if cc.premature.Load() {
